@@ -8,9 +8,13 @@
    every node's record is exactly (data, parent, first child, next, prev) as F dictates, identities are pairwise
    distinct (the graph is acyclic and nothing is shared), nothing else is allocated, text nodes are leaves.
    `CLinks c` = some forest is so represented by the caller state c and its roots are c's root and detached handles.
-   The "same bytes as the parsed document" half of the property is not a theorem (the encoders and Expat are not
-   modelled here): it is checked on the C by the harness (props/C18/check.py); what IS proved about it is that the
-   walk the encoders perform over the pointers is a function of the shape alone (C18_equal_shapes_equal_walks). *)
+   The "same bytes as the parsed document" half of the property: proved are that the walk the encoders perform over
+   the pointers is a function of the shape alone (C18_equal_shapes_equal_walks), that it determines the shape
+   (C18_walk_determines_shape) and hence that the bytes of the encoder models Model/EncWbxml.v / Model/EncXml.v on the
+   reified tree depend on the heap only through that walk (C18_bytes_function_of_walk_wbxml / _xml); that Expat
+   reports the items the front-end model assumes, and that the encoder models are the C, is checked by the harnesses.
+   Ownership over whole histories (nodes, nested trees, refused calls, final destruction): Model/TreeOwn.v,
+   C18_ownership_invariant / C18_destroy_releases_all / C18_refused_tree_stays_with_caller. *)
 From Coq Require Import List NArith Permutation.
 From Wbxml Require Model.EncWbxml Model.EncXml.
 From Wbxml Require Import Model.TreeGraph Proofs.TreeGraphProofs.
